@@ -29,7 +29,9 @@ pvars == <<start, cur, orig, fix, hist>>
 QueryCalls == {"A", "b", "to_linalg", "column_bounds", "row_bounds", "ncomb", "tighten", "red_rows", "red_cols", "rr_and_c",
                "sat", "sep", "rowsep", "idx", "copy", "rewrap", "neglectable",
                \* the reduction calls made for their result only: the caller goes on with the polyhedron it had
-               "reduce_cols_q", "reduce_rows_q", "reduce_both_q"}
+               "reduce_cols_q", "reduce_rows_q", "reduce_both_q",
+               \* reduce(columns_vector = every column at its lower bound) and reduce(rows_vector = no row), for their results only
+               "assign_lo", "drop_none"}
 StepCalls == {"reduce_cols", "reduce_rows", "reduce_both"}
 EnvCalls == {"edit", "widen"}
 NoFixP(p) == [ j \in DOMAIN p.cols |-> [fixed |-> FALSE, val |-> 0] ]
